@@ -3,6 +3,7 @@ module github.com/emitter-io/emitter/verifsim
 go 1.26.8
 
 require (
+	github.com/anishathalye/porcupine v1.3.0
 	github.com/eclipse/paho.mqtt.golang v1.5.0
 	github.com/emitter-io/config v1.0.0
 	github.com/emitter-io/emitter v0.0.0
